@@ -12,8 +12,9 @@ SCOPE_FUNCS = ("_verify_bucket_exists", "_verify_variable_is_type", "q2_function
 
 
 def scope(prog):
-    """query2.py entirely, plus the wrappers / verifiers / bucket-access functions of functions.py"""
-    out = [f for f in prog.funcs.values() if f.mod.name == "aw_query.query2"]
+    """query2.py entirely, plus the wrappers / verifiers / bucket-access functions of functions.py, plus whatever the package
+    itself defines in front of them (aw_query/__init__.py: what `from aw_query import query` runs)"""
+    out = [f for f in prog.funcs.values() if f.mod.name in ("aw_query.query2", "aw_query")]
     for s in SCOPE_FUNCS:
         out.append(prog.func(s, "aw_query.functions"))
     return out
@@ -207,6 +208,30 @@ def external_calls(prog, rep):
                 child, p_ = p_, parent(p_)
             rep.check(covered, "IMPLICIT-RAISE", fi.short, f"call {name}(...)", "known not to raise / wrapped into a query error", f"`{norm(c)[:70]}` leaves the analysed code: nothing is known about the exceptions `{name}` raises on malformed input (e.g. UnicodeDecodeError, ValueError), and no enclosing handler turns them into a query error", fi.loc(c))
     rep.floor("external call sites classified", n, 40)
+
+
+def wrapper_handlers(prog, rep):
+    """the registry / typecheck wrappers let the wrapped function's exceptions through as they are"""
+    rep.rule("WRAP-RAISE", "the wrappers around the built-ins (registry wrapper, typecheck wrapper) do not catch TypeError or anything broader around the call of the wrapped function: QFunction.interpret tells a wrong number of arguments by the TypeError of that very call and reports it as an interpret error; a wrapper that turns it into another query error first changes the error class the property names")
+    for short in ("q2_function.h.g", "q2_typecheck.g"):
+        fi = prog.func(short, "aw_query.functions")
+        wrapped = set()
+        o_ = fi.outer
+        while o_ is not None:
+            wrapped |= set(o_.params)
+            o_ = o_.outer
+        bad = None
+        for t in [x for x in walk_own(fi.node) if isinstance(x, ast.Try)]:
+            calls_wrapped = any(isinstance(c, ast.Call) and isinstance(c.func, ast.Name) and c.func.id in wrapped for b in t.body for c in ast.walk(b))
+            if not calls_wrapped:
+                continue
+            for h in t.handlers:
+                names = [norm(h.type)] if h.type is not None and not isinstance(h.type, ast.Tuple) else ([norm(e) for e in h.type.elts] if h.type is not None else ["<bare>"])
+                broad = [x for x in names if x in ("TypeError", "Exception", "BaseException", "<bare>")]
+                reraises = len(h.body) == 1 and isinstance(h.body[0], ast.Raise) and h.body[0].exc is None
+                if broad and not reraises:
+                    bad = bad or (h, broad)
+        rep.check(bad is None, "WRAP-RAISE", fi.short, "handlers around the wrapped call", "none that catches TypeError / Exception", (f"`except {', '.join(bad[1])}` around the call of the wrapped function: the TypeError Python raises for a wrong number of arguments is turned into `{norm(bad[0].body[-1])[:60]}` before QFunction.interpret sees it, so `f(a, b)` with one argument too many is reported as a function error, not as the interpret error the property names" if bad else ""), fi.loc(bad[0]) if bad else fi.loc())
 
 
 def one_shot_iterators(prog, rep):
@@ -501,6 +526,7 @@ def check(prog, rep):
     typed_arguments(prog, rep)
     bucket_guard(prog, rep)
     implicit_raises(prog, rep)
+    wrapper_handlers(prog, rep)
     # expressions that raise a built-in error whenever they are evaluated (integer format code on a float, text + number)
     from ..rules_raise import certain_raises
 
